@@ -311,21 +311,21 @@ def assign_setup(eng, exact=True):
             e.ghost['joined'].append(o.attrs['idx'])
             return True
         return False
-    stubs.STUBS['MolRef'] = {'methods': {'add_fragment': add_fragment, '__finalise__': lambda e, o: None,
+    stubs.STUBS['AssignMolRef'] = {'methods': {'add_fragment': add_fragment, '__finalise__': lambda e, o: None,
                                          'set_rejection_reason': lambda e, o, *a: None}, 'props': {}, 'setters': {}}
 
     def new_molecule(e, a, k, n):
         idx = fresh(INT, 'new_molecule')
         e.assume(KEY(idx.z) == fkey.z)
         e.ghost['created'].append(idx)
-        return Obj('MolRef', {'idx': idx})
+        return Obj('AssignMolRef', {'idx': idx})
     eng.spec_env['NEWMOL'] = Builtin('molecule_class', new_molecule)
 
 
 def it_self_for(pooling):
     def it_self(eng, name):
         from pyvc.symlist import SymList
-        mols = SymList.fresh((INT,), None, 'molecules', eng=eng, wrap=lambda v: Obj('MolRef', {'idx': v}), unwrap=lambda o: o.attrs['idx'])
+        mols = SymList.fresh((INT,), None, 'molecules', eng=eng, wrap=lambda v: Obj('AssignMolRef', {'idx': v}), unwrap=lambda o: o.attrs['idx'])
         eng.spec_env['MOLS0'] = mols.vc_snapshot()
         eng.spec_env['MOLS'] = mols
         frag_ = Obj('FragStub', {'match_hash': 'mh'})
@@ -440,7 +440,7 @@ def iter_prologue_block(f):
 
 def iter_prologue_self(pooling):
     def mk(eng, name):
-        stale = [Obj('MolRef', {'idx': 1}), Obj('MolRef', {'idx': 2})]
+        stale = [Obj('AssignMolRef', {'idx': 1}), Obj('AssignMolRef', {'idx': 2})]
         attrs = {'perform_qflag': False, 'pooling_method': pooling, 'waiting_fragments': named(INT, 'stale_waiting'),
                  'yielded_fragments': named(INT, 'stale_yielded'), 'deleted_fragments': named(INT, 'stale_deleted'),
                  'check_ejection_iter': named(INT, 'stale_counter')}
@@ -1079,7 +1079,7 @@ umi_eq3.replay = umi_eq3_replay
 # two molecules that may both accept the fragment (UMIs within distance 1 of a third one): it must still land in exactly one
 def it_self_two(pooling):
     def it_self(eng, name):
-        mols = [Obj('MolRef', {'idx': named(INT, 'molecule_0')}), Obj('MolRef', {'idx': named(INT, 'molecule_1')})]
+        mols = [Obj('AssignMolRef', {'idx': named(INT, 'molecule_0')}), Obj('AssignMolRef', {'idx': named(INT, 'molecule_1')})]
         eng.spec_env['MOLS0'] = list(mols)
         eng.spec_env['MOLS'] = mols
         frag_ = Obj('FragStub', {'match_hash': 'mh'})
